@@ -5,6 +5,7 @@ recorded trace against GritsRT, (4) Sax reference outcomes.  Results are cached 
 (content of /repo's working tree, seed, tier)."""
 import json, os, sys, glob, time, hashlib, fcntl, random, collections, concurrent.futures
 import vlib
+sys.setrecursionlimit(200000)
 
 EXAMPLES_SKIP = set()
 
@@ -78,8 +79,16 @@ def frontend(progs):
         p["dump"] = r.get("dump")
         p["accepted"] = r.get("tc") == "ok" and r.get("parse") == "ok"
         p["closed"] = r.get("assumed", 0) == 0
-        p["runnable"] = bool(p["accepted"] and p["closed"] and r.get("nprocs", 0) > 0 and p["dump"])
+        p["runnable"] = bool(p["accepted"] and p["closed"] and r.get("nprocs", 0) > 0 and p["dump"] and _depth(p["dump"]) <= 120)   # (TLC's JSON reader stops at nesting depth 255)
     return progs
+
+
+def _depth(x):
+    if isinstance(x, dict):
+        return 1 + max([_depth(v) for v in x.values()] or [0])
+    if isinstance(x, list):
+        return 1 + max([_depth(v) for v in x] or [0])
+    return 0
 
 
 def matrix(tier, seed):
@@ -577,9 +586,13 @@ def _campaign(tier, seed, extra_progs):
         # expected outcome of every interleaving: the reference semantics' bag when available,
         # else the bag the first real polarized run printed
         expect = {}
+        # (fallback when the reference semantics has no answer: the multiset most of the program's polarized runs printed - never a single run)
+        votes = collections.defaultdict(collections.Counter)
         for r in runs:
-            if r["mode"] == "async" and r["prints"] is not None and not r["crash"] and r["prog"] not in expect:
-                expect[r["prog"]] = {"bag": sorted(r["prints"]), "unique": True, "from": "real-run"}
+            if r["mode"] in ("async", "sync") and r["prints"] is not None and not r["crash"] and not r["hang"] and not r["late"]:
+                votes[r["prog"]][tuple(sorted(r["prints"]))] += 1
+        for name_, cnt in votes.items():
+            expect[name_] = {"bag": list(cnt.most_common(1)[0][0]), "unique": True, "from": "real-runs-majority"}
         import sax
         saxexp = sax.expected_bags(runnable, work, tier)
         expect.update({n: e for n, e in saxexp.items() if e["unique"]})
@@ -587,9 +600,13 @@ def _campaign(tier, seed, extra_progs):
         # deviation only if it shows again (a single starved run on a loaded machine must not raise an alarm; a crash needs no confirmation)
         byname_ = {p["name"]: p for p in progs}
         cfree_ = {p["name"]: contraction_free(p["dump"]) for p in runnable}
+        def refbag(name_):
+            e_ = saxexp.get(name_)
+            if e_ and e_["unique"] and not e_["sax_err"] and not e_["sax_left"]:
+                return sorted(e_["bag"])
+            return sorted(expect[name_]["bag"]) if name_ in expect else None
         suspects = [r for r in runs if r["prints"] is not None and not r["crash"] and not r["hang"] and not r["nonterminating"] and not r["late"]
-                    and r["prog"] in saxexp and saxexp[r["prog"]]["unique"] and not saxexp[r["prog"]]["sax_err"] and not saxexp[r["prog"]]["sax_left"]
-                    and (r["mode"] != "np" or cfree_.get(r["prog"])) and sorted(r["prints"]) != sorted(saxexp[r["prog"]]["bag"])]
+                    and refbag(r["prog"]) is not None and (r["mode"] != "np" or cfree_.get(r["prog"])) and sorted(r["prints"]) != refbag(r["prog"])]
         for r in suspects[:40]:
             jobs = [{"id": "%s#c%d" % (r["id"], k), "text": byname_[r["prog"]]["text"], "mode": r["mode"], "typecheck": True, "execute": True, "monitor": bool(r["monitor"]),
                      "subscriber": bool(r.get("subscriber")), "gomaxprocs": r["gomaxprocs"], "seed": r["seed"] + k + 1, "yield": r["yield"], "trace": True, "dump": False,
@@ -598,7 +615,7 @@ def _campaign(tier, seed, extra_progs):
             valid = [x for x in rr.values() if not x.get("crash") and not x.get("hang") and not x.get("timeout") and not x.get("late")
                      and not (x.get("events") and premature_quiescence(x["events"], r["mode"]))]
             r["reruns"] = len(valid)
-            r["confirm"] = sum(1 for x in valid if sorted(x.get("prints") or []) != sorted(saxexp[r["prog"]]["bag"])) + sum(1 for x in rr.values() if x.get("crash"))
+            r["confirm"] = sum(1 for x in valid if sorted(x.get("prints") or []) != refbag(r["prog"])) + sum(1 for x in rr.values() if x.get("crash"))
         exh = exhaustive(small, work, timeout=300 if tier == "quick" else 1500,
                          expect={n: e["bag"] for n, e in expect.items() if e.get("unique")})
         tm["exhaustive"] = time.time() - t1; t1 = time.time()
